@@ -135,6 +135,7 @@ deriving Repr, DecidableEq
 inductive Builtin
   | abs | len | int | str | tuple | range | enumerate | npOnes | isinstance | set
   | sorted | sortedDesc | join | items
+  | isupper                                     -- `s.isupper()` (ASCII letters; the core applies it to one character)
   | jsonDumps | jsonLoads                       -- `json.dumps(v, indent=None)` / `json.loads(text)` (Model/Json.lean)
 deriving Repr, DecidableEq
 inductive MutOp | append | add | remove
@@ -604,6 +605,9 @@ def builtinF (r : Rec) (P : Program) (b : Builtin) (vs : List Val) : R Val :=
     | some ss => pure (.str (List.intercalate sep ss))
     | none => throw (.exc K.TypeError)
   | .items, [.dict kvs] => pure (.tuple (kvs.map fun (k, v) => .tuple [k, v]))
+  | .isupper, [.str s] =>
+    -- str.isupper(): at least one cased character and no lower-case one (ASCII model)
+    pure (.bool (s.any (fun c => decide ('A' ≤ c ∧ c ≤ 'Z')) && !s.any (fun c => decide ('a' ≤ c ∧ c ≤ 'z'))))
   | .jsonDumps, [v] => match valToJson v with
     | some j => pure (.str (pyDumps j))
     | none => throw (.exc K.TypeError)
